@@ -13,9 +13,15 @@ static const char *verify_tool;
 typedef struct { uint64_t lo, hi; size_t first_entry, n_entries; int is_index; } region_t;  /* [lo,hi) = crc field + stored bytes */
 
 static int g_env_mode;   /* MTBL_READER_MADVISE_RANDOM for the next observation: 0 unset, 1 "0", 2 "1" */
+static int g_companion;  /* 0: the file alone; 1: an intact copy named before it on the command line; 2: after it */
+static int g_opt_pattern; /* order and repetition of the reader option setter calls (all patterns end with verify_checksums on) */
 static int run_verify_tool(const char *path, char *out, size_t outsz)
 {
-	char cmd[8400]; snprintf(cmd, sizeof cmd, "%s%s %s 2>/dev/null", g_env_mode == 0 ? "" : g_env_mode == 1 ? "MTBL_READER_MADVISE_RANDOM=0 " : "MTBL_READER_MADVISE_RANDOM=1 ", verify_tool, path);
+	char good[4200]; snprintf(good, sizeof good, "%s.good", path);
+	int comp = g_companion && access(good, R_OK) == 0 ? g_companion : 0;
+	char cmd[13000]; snprintf(cmd, sizeof cmd, "%s%s %s%s%s%s%s 2>/dev/null", g_env_mode == 0 ? "" : g_env_mode == 1 ? "MTBL_READER_MADVISE_RANDOM=0 " : "MTBL_READER_MADVISE_RANDOM=1 ", verify_tool,
+		comp == 1 ? good : "", comp == 1 ? " " : "", path, comp == 2 ? " " : "", comp == 2 ? good : "");
+	statf(1, "tool.command_line.%s", comp == 0 ? "file-alone" : comp == 1 ? "intact-file-first" : "intact-file-last");
 	FILE *p = popen(cmd, "r");
 	if (!p) return -2;
 	size_t n = fread(out, 1, outsz - 1, p); out[n] = 0;
@@ -38,7 +44,13 @@ static long reader_child(const char *path, int mode, const model_t *m, size_t st
 		if (g_env_mode) setenv("MTBL_READER_MADVISE_RANDOM", g_env_mode == 1 ? "0" : "1", 1); else unsetenv("MTBL_READER_MADVISE_RANDOM");
 		int nfd = open("/dev/null", O_WRONLY); dup2(nfd, 2);
 		struct mtbl_reader_options *ro = mtbl_reader_options_init();
-		mtbl_reader_options_set_verify_checksums(ro, true);
+		switch (g_opt_pattern) {
+		case 1: mtbl_reader_options_set_verify_checksums(ro, true); mtbl_reader_options_set_madvise_random(ro, false); break;
+		case 2: mtbl_reader_options_set_madvise_random(ro, true); mtbl_reader_options_set_verify_checksums(ro, true); break;
+		case 3: mtbl_reader_options_set_verify_checksums(ro, false); mtbl_reader_options_set_verify_checksums(ro, true); mtbl_reader_options_set_madvise_random(ro, true); mtbl_reader_options_set_madvise_random(ro, false); break;
+		case 4: mtbl_reader_options_set_madvise_random(ro, false); mtbl_reader_options_set_verify_checksums(ro, true); break;
+		default: mtbl_reader_options_set_verify_checksums(ro, true); break;
+		}
 		struct mtbl_reader *rd = mtbl_reader_init(path, ro);
 		if (!rd) _exit(3);
 		const struct mtbl_source *s = mtbl_reader_source(rd);
@@ -86,6 +98,9 @@ static void observe_fault(const char *path, int fd, const model_t *m, const regi
 	apply_fault(fd, f);
 	g_env_mode = (int)((f->bit[0] / 3) % 4); if (g_env_mode == 3) g_env_mode = 0;      /* half of the observations with the madvise environment override set */
 	statf(1, "faults.env_madvise.%s", g_env_mode == 0 ? "unset" : g_env_mode == 1 ? "0" : "1");
+	g_companion = (int)((f->bit[0] / 5) % 4); if (g_companion == 3) g_companion = 1;          /* a quarter alone, half after an intact file, a quarter before one */
+	g_opt_pattern = (int)((f->bit[0] / 7) % 5);
+	statf(1, "faults.reader_option_calls.pattern%d", g_opt_pattern);
 	const char *role = role_of(rg, bi, nblocks);
 	char desc[160]; snprintf(desc, sizeof desc, "%s fault (%d bit(s), first at file bit %" PRIu64 ") in %s block %zu", cls, f->n, f->bit[0], role, bi);
 	if (use_tool) {
@@ -127,6 +142,7 @@ static region_t *regions_of(const char *path, const wcfg_t *cfg, size_t *nreg, s
 	size_t len; uint8_t *data = read_file(path, &len);
 	rd_file_t f;
 	if (!data || rd_parse(data, len, (int64_t)cfg->prefix_len, &f) != 0) { inconclusive("decoder rejects written file: %s", data ? f.err : "unreadable"); free(data); return NULL; }
+	{ char good[4200]; snprintf(good, sizeof good, "%s.good", path); write_file(good, data, len); }      /* intact companion for multi-file mtbl_verify command lines */
 	region_t *rg = xcalloc(f.n_blocks + 1, sizeof(region_t));
 	size_t gi = 0;
 	for (size_t b = 0; b < f.n_blocks; b++) {
